@@ -1848,6 +1848,10 @@ def bipartite_random_regular(l, r, d, seed=None):
                     break
             if failure:
                 return bipartite_random_regular(l, r, d)
+            # use the available edge found by the scan
+            G.add_edge(A[ea], B[eb])
+            A[i], A[ea] = A[ea], A[i]
+            B[i], B[eb] = B[eb], B[i]
 
     return G
 
